@@ -40,8 +40,15 @@ def run_property(prop: str, tier: str, seed: int, only: Optional[str] = None,
         if f'bounded.{prop.lower()}' not in str(e):
             raise
         bm = None
-    if bm is not None and os.environ.get('VERIF_NO_BOUNDED') != '1':
-        for ob in bm.OBLIGATIONS:
+    obs = list(bm.OBLIGATIONS) if bm is not None else []
+    try:
+        xm = importlib.import_module(f'bounded.extra_{prop.lower()}')
+        obs.extend(xm.OBLIGATIONS)
+    except ModuleNotFoundError as e:
+        if f'bounded.extra_{prop.lower()}' not in str(e):
+            raise
+    if os.environ.get('VERIF_NO_BOUNDED') != '1':
+        for ob in obs:
             if only and only not in ob.id:
                 continue
             results.append(run_bounded(ob, tier, seed))
@@ -53,11 +60,20 @@ def make(prop: str, **meta):
         return run_property(prop, tier, seed, only, meta)
 
     def replay_obligation(ob_id, doc):
+        if '.B.contract-twin.' in ob_id:
+            from pyvc.replay import replay_obligation as rp
+            return rp(ob_id, doc)
         if '.B.' in ob_id:
-            bm = importlib.import_module(f'bounded.{prop.lower()}')
-            for ob in bm.OBLIGATIONS:
-                if ob.id == ob_id:
-                    return ob.check(doc['recipe'])
+            mods = []
+            for name in (f'bounded.{prop.lower()}', f'bounded.extra_{prop.lower()}'):
+                try:
+                    mods.append(importlib.import_module(name))
+                except ModuleNotFoundError:
+                    pass
+            for bm in mods:
+                for ob in bm.OBLIGATIONS:
+                    if ob.id == ob_id:
+                        return ob.check(doc['recipe'])
             raise SystemExit(f'no bounded obligation {ob_id}')
         pv = importlib.import_module(f'contracts.props.{prop}')
         return pv.replay(ob_id, doc)
